@@ -719,14 +719,21 @@ def traverse(node):
             continue
 
         child = traversing.child
+        stack.append(traversing._replace(is_finished=True))
+        yield traversing
+
+        # Every occurrence gets its pair of events, but a list, tuple, dict or
+        # object is only expanded the first time we meet it. Plain values have
+        # nothing to expand (and equal ones, like None, are often one object).
+        if not isinstance(child, (list, tuple, dict, ParsedObject)):
+            continue
+
         child_id = id(child)
 
         if child_id in visited:
             continue
 
         visited.add(child_id)
-        stack.append(traversing._replace(is_finished=True))
-        yield traversing
 
         def extend(items):
             stack.extend(reversed(list(items)))
